@@ -37,6 +37,9 @@ CHECKS = {
  "C09": dict(cat="exploration", technique="complete product enumeration of oracle data and of oracle-failure conditions through the real risk engine and the real instructions (pulse_health, borrow, withdraw, liquidate, handle_bankruptcy), judged against an exact independent reference valuation and the statement's one-sided rules",
    text="(A) ~4500 cells: {asset side, debt side} x max-confidence {default, 2 %, 5 %, 100 %} x Pyth prices 1..9e15 x exponents -12..0 (thorough -18..1) x confidence {0, 1e-5, 1 %, either side of 5 %/2.12 and 10 %/2.12, 9 %, 100 %} x EMA {x1, x0.5, x2}, and Switchboard values 1e-9..1e6 x std-dev incl. either side of 5 %/1.96 and 10 %/1.96: the program's initial, maintenance and equity valuations and three verdicts (read from the health cache) equal the reference; collateral <= reported price, debt >= reported price, band <= 5 %. (B) {Pyth/Pyth, Switchboard/Switchboard, fixed/Pyth, Pyth/fixed, staked/Pyth} x {collateral, debt} oracle x 17 conditions (age at / one second over the limit, wrong owner, wrong discriminator, partial verification, confidence just under / over the maximum, zero / zero-with-confidence / negative price, zero EMA, identical impostor at another address, staked mint / pool impostors, zero LST supply, fixed zero) x {healthy, liquidatable, bankrupt} portfolios: pulse plus real borrow / withdraw / liquidate / bankruptcy; an acceptance requires a usable reference valuation of the kind that decision needs, and no liquidation is sized by a non-positive price.",
    ref="6 C09"),
+ "C10": dict(cat="model_checking", technique="exhaustive enumeration of transaction shapes (instruction lists up to a length bound over a 19-symbol alphabet) executed atomically through the real entrypoint with a real instructions sysvar and CPI stack heights; committed transactions judged by a reference bracket language and exact reference health / equity valuations; amount grids with boundary-directed values inside well-formed brackets",
+   text="(a) All 2.6 million instruction lists of length <= 5 (quick; <= 6 thorough) over {compute budget, record init, whitelisted refresh, start / end for two unhealthy accounts, withdraw / repay for both (small, oversized), deposit, allowed / not-allowed / malformed foreign program, start / end / withdraw via CPI} are executed as transactions signed by a third party only: a commit never leaves a receivership / deleverage / flash-loan marker or a recorded receiver anywhere, and whenever an account's balances changed the list is a well-formed bracket for that account (single start first after whitelisted instructions, matching end last, only withdraw / repay in between, nothing via CPI), the account was unhealthy, its health is no worse and not positive, and the premium cap holds unless its assets were under $5. (b) [start, repay(y), withdraw(x), end] on an amount grid with values one cent either side of the premium, not-worse and not-positive boundaries x 5 portfolios x maximum-fee settings. (c) Zero-weight and zero-price collateral never leaves in a committed bracket.",
+   ref="6 C10"),
  "C12": dict(cat="exploration", technique="complete matrix enumeration through the real entrypoint: delegated-admin instruction x argument menu (all single-bit, all defined-subset and all-ones flag words) x bank flag presets x frozen/unfrozen, byte-level frame diff against per-role field masks; BFS over admin sequences from frozen banks; bounded-exhaustive deleverage sequences against a reference daily window",
    text="(a) Every case of interest-only / limits-only (full product) / e-mode configure and clone / setup and update emissions with 194 flag words / metadata / force-complete / group-admin configure, oracle and fixed-price calls x {bank with, without emissions} x {unfrozen, frozen} x flag presets is executed; the byte diff of every account must stay inside the signer role's field mask, and on a frozen bank weights, oracle, curve, tier, init limit and state must stay and the freeze bit must survive; (b) every admin sequence up to depth 2 (quick) / 3 (thorough) from a frozen bank keeps FREEZE_SETTINGS; (c) every sequence up to depth 3 / 4 of risk-admin deleverage transactions x 4..7 withdrawal values around whole dollars and the limit x clock advances {0, 86399, 86400, 86401} x limits {none, 1, 100}: tumbling-window whole-dollar sum <= limit, health not worse, flags cleared.",
    ref="6 C12"),
